@@ -69,6 +69,13 @@ func TdxPolicy(ctx context.Context, endorsement *epb.VMLaunchEndorsement, opts *
 		}
 		mrtds = append(mrtds, m.GetMrtd())
 	}
+	// An empty any_mr_td list is no constraint at all, so it must not be put in the policy.
+	if len(mrtds) == 0 {
+		if opts.RAMGiB != 0 {
+			return nil, fmt.Errorf("endorsement has no TDX measurement for %d GiB of RAM", opts.RAMGiB)
+		}
+		return nil, fmt.Errorf("endorsement has no TDX measurements")
+	}
 	if err := modifyTdxPolicy(result, mrtds, opts); err != nil {
 		return nil, err
 	}
